@@ -154,3 +154,20 @@ def c16Holds (cbs : List Callback) (before : Mirror) (m : Msg) (observed : List 
   if streamOk before m then some (observed == deliveriesByCb cbs (eventsOf before m)) else none
 
 end Indi.Spec.Cli
+
+/-! ### C16: a callback removed while an event is being dispatched
+
+  `rmonevent` may be called from inside a callback.  A callback that is removed before its turn — it was registered later
+  than the remover — must not see the event in flight nor any later one ("never after it has been removed"); every other
+  callback sees every event.  (Removing an earlier or the running callback is the case documented as outside the
+  property: the library's dispatch loop then skips the next callback.) -/
+
+namespace Indi.Spec.Cli
+
+/-- `n` callbacks that accept every event, callback `i` removes callback `j` (`i < j < n`) when it is handed the first event;
+`logs[k]` = the indices of the events callback `k` was handed, out of `e` events -/
+def inflightHolds (n i j e : Nat) (logs : List (List Nat)) : Bool :=
+  logs.length == n && decide (i < j) && decide (j < n) &&
+  (List.range n).all fun k => logs.getD k [] == (if k = j then [] else List.range e)
+
+end Indi.Spec.Cli
